@@ -65,6 +65,16 @@ def _fingerprint(elements, mods, classes):
         fp.append((m.__name__, tuple(sorted((k, id(v)) for k, v in vars(m).items() if not k.startswith('__')))))
     for c in classes:
         fp.append((c.__name__, tuple(sorted((k, id(v)) for k, v in vars(c).items() if not k.startswith('__')))))
+    # interpreter- and library-global settings a parse could leave behind
+    import sys
+    import pyparsing as pp
+    fp.append(('recursionlimit', sys.getrecursionlimit()))
+    fp.append(('pyparsing globals', pp.ParserElement.DEFAULT_WHITE_CHARS, getattr(pp.ParserElement, '_packratEnabled', None),
+               getattr(pp.ParserElement, '_left_recursion_enabled', None), pp.ParserElement.verbose_stacktrace))
+    import pydbml.classes as C
+    for cname in C.__all__:
+        cls_ = getattr(C, cname)
+        fp.append((cname, tuple(sorted((k, id(v)) for k, v in vars(cls_).items() if not k.startswith('__')))))
     return fp
 
 
@@ -193,7 +203,7 @@ def again(b_kind, K=1, fix=None):
     return Harness(body, args, describe=lambda a: dict(a, b_kind=b_kind), bounds={'b_kind': b_kind, 'K': K}, fixed=fix)
 
 
-def isolation(K=1):
+def isolation(K=1, bare_project=False):
     """two results of the same document share no mutable state; editing one changes neither the other nor later parses"""
     args = hole_args('n', K, TEXT) + [('edit', IntRange(0, 6))]
 
@@ -201,6 +211,8 @@ def isolation(K=1):
         from pydbml.classes import Table, Column, Note, EnumItem
         note = text_of(a, 'n', K)
         A = DOC_A.replace('{N}', note.replace("'", "\\'"))
+        if bare_project:
+            A = A.replace("Project p {\n  k: 'v'\n}\n", "Project p {\n}\n")      # a project that declares no items
         try:
             r1 = docs.parse(A, allow_properties=True)
             r2 = docs.parse(A, allow_properties=True)
@@ -260,7 +272,7 @@ def isolation(K=1):
             return 'two parse results share the project items dict'
         return ''
 
-    return Harness(body, args, describe=lambda a: dict(a), bounds={'K': K})
+    return Harness(body, args, describe=lambda a: dict(a, bare_project=bare_project), bounds={'K': K, 'bare_project': bare_project})
 
 
 def instances(tier):
@@ -274,4 +286,5 @@ def instances(tier):
         out.append({'name': f'again/faulty/pos{pos}', 'factory': 'again', 'params': {'b_kind': 'faulty', 'K': K, 'fix': {'pos': pos}}, 'timeout': T1,
                     'native_limit': 40})
     out.append({'name': 'isolation', 'factory': 'isolation', 'params': {'K': K}, 'timeout': T1, 'native_limit': 60})
+    out.append({'name': 'isolation/bare_project', 'factory': 'isolation', 'params': {'K': K, 'bare_project': True}, 'timeout': T1, 'native_limit': 60})
     return out
